@@ -835,3 +835,19 @@ silent("c17_capture_name_walrus", "C17", [(PATTERN, '''        name = self._chec
             return AnyMatcher(name=name)''', '''        if (label := self._check_unique_and_get_capture(tree.children[1])) is not None:
             # Any value with capture
             return AnyMatcher(name=label)''')])
+
+# ---------------------------------------------------------------- the stored resolved type is the whole annotation (C13-s20)
+fire("c13_resolved_type_unwrapped_optional", "C13", [(TYPING, "    return FieldTypeInfo(is_collection(type_), type_)\n", '''    if is_optional(type_):
+        members = [t for t in get_args(type_) if t is not type(None)]
+        if len(members) == 1 and is_collection(members[0]):
+            type_ = members[0]
+
+    return FieldTypeInfo(is_collection(type_), type_)
+''')], "R-GATE")
+fire("c13_child_resolved_type_is_member", "C13", [(TYPING, "                child_fields[f] = FieldTypeInfo(is_tuple(ftype), ftype)", '''                if is_optional(ftype):
+                    ftype = next(t for t in get_args(ftype) if t is not type(None))
+                child_fields[f] = FieldTypeInfo(is_tuple(ftype), ftype)''')], "R-GATE")
+silent("c13_flag_from_member_type_kept", "C13", [(TYPING, "    return FieldTypeInfo(is_collection(type_), type_)\n", '''    annotation = type_
+    collection_flag = is_collection(annotation)
+    return FieldTypeInfo(collection_flag, resolved_type=annotation)
+''')])
